@@ -100,7 +100,9 @@ type world struct {
 }
 
 var goodKeys = []string{"a", "d1/a", "d1/b", "d1/d2/c", "d1/d2/e", "d3/x", "checkpoint", "tile/0/000", "tile/0/x001/234.p/5", "tile/data/x001/234"}
-var badKeys = []string{"../esc", "/abs", "", "a/../../b", "a\x00b", "d1/../../esc", "..", "a//b", "d1/../../../etc/passwd", "./a"}
+var badKeys = []string{"../esc", "/abs", "", "a/../../b", "a\x00b", "d1/../../esc", "..", "a//b", "d1/../../../etc/passwd", "./a",
+	// siblings whose name has the configured directory as a string prefix
+	"../store2/checkpoint", "../storeX", "../store-old/d1/a", "d1/../../store2/a"}
 
 func (w *world) v(class, format string, a ...any) { w.sim.Violate("C13", class, format, a...) }
 
@@ -150,10 +152,21 @@ func (w *world) build() {
 			u.data = content(i, n)
 			u.imm = u.key != "checkpoint" && r.Chance(2, 3)
 			if prev, ok := immKeys[u.key]; ok {
-				// an immutable key: re-upload equal or different content
+				// an immutable key: re-upload equal or different content; the
+				// different content is often a near miss of the stored bytes
 				u.imm = true
-				if r.Chance(1, 2) {
+				switch x := r.Intn(8); {
+				case x < 3:
 					u.data = prev
+				case x == 3 && len(prev) > 1:
+					u.data = bytes.Clone(prev[:len(prev)-1]) // strict prefix
+				case x == 4 && len(prev) > 2:
+					u.data = bytes.Clone(prev[:len(prev)/2])
+				case x == 5:
+					u.data = append(bytes.Clone(prev), 0) // extension
+				case x == 6 && len(prev) > 0:
+					u.data = bytes.Clone(prev)
+					u.data[r.Intn(len(prev))] ^= 1 // same length, one bit
 				}
 			} else if u.imm {
 				immKeys[u.key] = u.data
